@@ -116,6 +116,17 @@ fn mutate(p: &mut Party, foreign_dids: &[String], round: usize) {
       with_sibling.insert(0, sib);
     }
   }
+  // ... and the document's own DID with the hex digits of its tag in upper case: as a DID string that is another DID
+  // (it can only appear where plain DIDs are stored, e.g. as id or controller of a method)
+  if p.did.starts_with("did:iota:") && ctx::choose(3) == 0 {
+    if let Some((head, tag)) = p.did.rsplit_once("0x") {
+      let upper = format!("{head}0x{}", tag.to_ascii_uppercase());
+      if upper != p.did {
+        ctx::stat("probe.own_did_in_upper_case_hex");
+        with_sibling.insert(0, upper);
+      }
+    }
+  }
   let foreign_dids: &[String] = &with_sibling;
   let n = 1 + ctx::choose(6);
   for i in 0..n {
